@@ -111,6 +111,7 @@ inline void hard_fault(const std::string &kind, const std::string &detail0) {
   static bool in = false;
   if (in) _exit(8);
   in = true;
+  signal(SIGALRM, SIG_DFL);
   alarm(20);
   std::string detail = detail0 + stderr_tail();
 #ifndef SYMT_CONCRETE
@@ -127,6 +128,16 @@ inline void hard_fault(const std::string &kind, const std::string &detail0) {
   stats().reproduced.push_back("memory-safety/" + kind);
   stats().notes.push_back(detail);
 #endif
+  flush_result();
+  _exit(0);
+}
+// a case that exceeds its wall-clock budget is inconclusive (never a pass): e.g. a change that makes the real code fork on
+// every coefficient can multiply the number of paths beyond reach
+inline void on_alarm(int) {
+  static bool in = false;
+  if (in) _exit(8);
+  in = true;
+  stats().inconclusive.push_back("case time budget exceeded after " + std::to_string(stats().paths) + " paths");
   flush_result();
   _exit(0);
 }
@@ -224,7 +235,10 @@ inline int run_main(int argc, char **argv, std::vector<Case> &cases) {
         signal(SIGFPE, on_signal);
         signal(SIGBUS, on_signal);
         double t0 = sym::now_s();
+        signal(SIGALRM, on_alarm);
+        alarm(getenv("SYMT_CASE_BUDGET_S") ? atoi(getenv("SYMT_CASE_BUDGET_S")) : 240);
         run_case_inproc(*c);
+        alarm(0);
         std::ostringstream ex;
         ex << ",\"wall_s\":" << (sym::now_s() - t0);
         flush_result(ex.str());
